@@ -328,9 +328,10 @@ PROBES = {
 }
 
 
-# The tree as it is now (commits 4aad8e2, b779a95): all three checks are present.  The model is always asked
+# The tree as it is now (commits 4aad8e2, b779a95, 8f5c8e6): all three checks are present and missing trailing
+# subscripts are padded with `:`.  The model is always asked
 # for this variant; the probes only document in the evidence file what the three canonical inputs do.
-CURRENT_CFG = {"sliceCheck": True, "loopCheck": True, "stepOrder": True}
+CURRENT_CFG = {"sliceCheck": True, "loopCheck": True, "stepOrder": True, "padMissing": True}
 
 
 def probe_cfg(ctx):
@@ -343,13 +344,10 @@ def probe_cfg(ctx):
     cfg["loopCheck"] = r["o"] == "error"
     r = run_real(PROBES["stepOrder"])
     cfg["stepOrder"] = r == {"o": "sel", "rows": [[[0, 0]], [[2, 0]]]}
-    # proposed fix C23-3 (open finding C23-F4): probed until the finding is marked fixed, required afterwards
+    # fix C23-3 (finding C23-F4, commit 8f5c8e6): required
     r = run_real(PROBES["padMissing"])
     cfg["padMissing"] = r == {"o": "sel", "rows": [[[1, 0], [1, 1], [1, 2]]]}
-    used = dict(CURRENT_CFG, padMissing=cfg["padMissing"])
-    for k in ctx.known:
-        if k["id"] == "C23-F4" and k.get("status") == "fixed":
-            used["padMissing"] = True
+    used = dict(CURRENT_CFG)
     ctx.extra["model_cfg_probed"] = cfg
     ctx.extra["model_cfg_used"] = used
     if cfg != used:
@@ -544,7 +542,7 @@ def finding_class(case):
     """Input class of a case, for the distribution in the evidence file: the classes of the findings C23-F1..F3
     (fixed by 4aad8e2 / b779a95, kept in the window) and of the open finding C23-F4; "main" otherwise."""
     from harness import known_c23 as K
-    for name, fn in (("three-part-range", K.has_three_part), ("F4-fewer-subscripts", K.fewer_subscripts),
+    for name, fn in (("three-part-range", K.has_three_part), ("fewer-subscripts", K.fewer_subscripts),
                      ("slice-bound-below-1", K.slice_lower_bound_below_one), ("loop-index-below-1", K.loop_index_below_one)):
         if fn(case):
             return name
